@@ -10,6 +10,8 @@ import tempfile
 import fontgen as fg
 
 PARTS = ["info", "kerning", "groups", "features", "lib"]
+# object kinds whose dirty flag the save/load paths never clear (finding F31, recorded per kind)
+BELOW_GLYPH = ("layer.lib", "glyph.lib", "contour", "component", "anchor", "guideline", "image")
 
 
 # ---------------------------------------------------------------------------------------
@@ -147,8 +149,8 @@ def gen_ops(rng, spec, nops, save_modes, p_save=0.12, structures=("package",)):
             else:
                 ops.append(["datget", n])
         else:
-            ops.append(["fguide", [[None, rng.randint(0, 500), None, rng.choice([None, "b"]), None, rng.choice([None, "fgA"])]
-                                   for _ in range(rng.randint(0, 2))]])
+            ops.append(["fguide", [[None, rng.randint(0, 500), None, rng.choice([None, "b"]), None, rng.choice([None, "fg%d" % j])]
+                                   for j in range(rng.randint(0, 2))]])
     return ops
 
 
@@ -568,6 +570,20 @@ class Impl(object):
             for gn, g in layer._glyphs.items():
                 if g.dirty:
                     res.append("glyph")
+                # objects below the glyph (finding F31): only looked at where they already exist
+                if g._lib is not None and g._lib.dirty:
+                    res.append("glyph.lib")
+                if g._shallowLoadedContours is None:
+                    if any(c.dirty for c in g._contours):
+                        res.append("contour")
+                if any(c.dirty for c in g._components):
+                    res.append("component")
+                if any(a.dirty for a in g._anchors):
+                    res.append("anchor")
+                if any(x.dirty for x in g._guidelines):
+                    res.append("guideline")
+                if g._image is not None and g._image.dirty:
+                    res.append("image")
             if layer._lib is not None and layer._lib.dirty:
                 res.append("layer.lib")
         for part in PARTS:
@@ -628,9 +644,10 @@ def check_saved(impl, shadow, prop, step, op, deep, second_save):
             viol.append(dict(clause="C06/orphan-files", signature="C06/orphan-files/%s" % mode, step=step, op=op, files=orp[:10]))
             return viol
         d = impl.dirty_report()
-        if d:
-            viol.append(dict(clause="C06/dirty-after-save", signature="C06/dirty-after-save/%s" % ",".join(d), step=step, op=op,
+        for kind in d:
+            viol.append(dict(clause="C06/dirty-after-save", signature="C06/dirty-after-save/%s" % kind, step=step, op=op,
                              dirty=d))
+        if [k for k in d if k not in BELOW_GLYPH]:
             return viol
         if second_save:
             before = tree_digest(path)
@@ -652,6 +669,18 @@ def run_case(case, prop):
         outs = []
         stats = {"origin." + case.get("origin", "disk"): 1, "structure." + case.get("structure", "package"): 1}
         nsaves = 0
+        if prop == "C06" and case.get("origin", "disk") == "disk":
+            # right after loading a format-3 UFO no object reports dirty
+            for kind in impl.dirty_report():
+                viol.append(dict(clause="C06/dirty-after-load", signature="C06/dirty-after-load/%s" % kind, step=-1))
+            if [v for v in viol if v["signature"].split("/")[-1] not in BELOW_GLYPH]:
+                pass
+            else:
+                known_only = list(viol)
+                viol = []
+                stats["f31_after_load"] = len(known_only)
+                carry = known_only
+        carry = locals().get("carry", [])
         for i, op in enumerate(case["ops"]):
             try:
                 status, extra = impl.do(op)
@@ -681,6 +710,7 @@ def run_case(case, prop):
             if r:
                 viol.append(dict(clause="%s/memory-differs" % prop, signature="%s/memory-differs/%s" % (prop, r.split(":")[0].strip("/").split("/")[0].split("[")[0]),
                                  step=len(case["ops"]), diff=r))
+        viol = carry + viol
         stats["saves"] = nsaves
         stats["len"] = len(case["ops"])
         nontrivial = nsaves > 0 and any(o[0] not in ("save", "gget", "touch", "imgget", "datget") for o in case["ops"])
